@@ -2,13 +2,16 @@
 use vl_model::ctx::parse_args;
 
 mod batch;
+mod c08;
 mod c09;
+mod driver;
 mod known;
 
 fn main() {
     let args = parse_args();
     std::panic::set_hook(Box::new(|_| {}));
     match args.id.as_str() {
+        "C08" => c08::run(&args),
         "C09" => c09::run(&args),
         other => {
             eprintln!("vl-gen: unknown property {}", other);
